@@ -32,7 +32,7 @@ def run(ctx):
     gate = vf.grep_gate()
     if gate:
         ctx.broken.append('forbidden constructs in coq/: ' + '; '.join(gate[:5]))
-    n = 300 if not ctx.thorough() else 8000
+    n = 600 if not ctx.thorough() else 8000
     rc, out = vf.sh([os.path.join(vf.BIN, 'c15'), '-seed', str(ctx.seed), '-n', str(n), '-out', ctx.out], timeout=3000)
     _cleanup_scratch()
     if rc != 0:
